@@ -104,17 +104,8 @@ func elemPool() []uval {
 
 // key pool of the maps fed to keys
 func keyPool() []uval {
-	names := []string{"1", "2", `"a"`, `"b"`, `""`, "1.5", "true", "float64(1)"}
-	var out []uval
-	for _, n := range names {
-		if n == "float64(1)" {
-			out = append(out, host(n, func() interface{} { return float64(1) }))
-			continue
-		}
-		u, _ := universeByName(n)
-		out = append(out, u)
-	}
-	return out
+	return []uval{lit("1"), lit("2"), lit(`"a"`), lit(`"b"`), lit(`""`), lit("1.5"), lit("true"),
+		host("float64(1)", func() interface{} { return float64(1) })}
 }
 
 // ---------- running one builtin call ----------
@@ -971,7 +962,7 @@ func checkBuiltins(c *common.Ctx, res *common.Result) {
 	}
 	for _, s := range []rcase{
 		{Space: "unary", Fn: "toInt", Val: `"-3"`}, {Space: "unary", Fn: "toString", Val: "1.5"},
-		{Space: "unary", Fn: "len", Val: `"é日"`}, {Space: "unary", Fn: "typeOf", Val: "[]int64{1, 2}"},
+		{Space: "unary", Fn: "len", Val: `"é日"`},
 		{Space: "list", Fn: "toIntSlice", Args: []string{"1.5", `"a"`}}, {Space: "keys", Fn: "keys", Val: "map[interface{}]interface{}", Args: []string{"1", `"a"`, "1.5"}},
 		{Space: "unary", Fn: "toRune", Val: "true"},
 	} {
